@@ -763,6 +763,9 @@ func init() {
 	}
 	atomicOp := func(kind string) intrinsicFn {
 		return func(m *Machine, fr *frame, fn *ssa.Function, args []value) value {
+			if m.sched != nil {
+				m.syncPoint(fr, "before atomic "+kind)
+			}
 			m.syncDepth++
 			defer func() { m.syncDepth-- }()
 			p := atomicCell(fn, args)
@@ -823,34 +826,51 @@ func init() {
 		if m.heldLocks[k] > 0 {
 			panic(pathEnd{kind: "fail", msg: "deadlock: sync.Mutex locked twice by the same call at " + fr.pos(), site: fr.stack()})
 		}
+		if m.sched != nil {
+			m.schedAcquire(fr, k, false)
+			if m.heldLocks == nil {
+				m.heldLocks = map[string]int{}
+			}
+		}
 		m.heldLocks[k]++
 		return nil
 	}
-	unlock := func(m *Machine, fr *frame, fn *ssa.Function, args []value) value {
-		k := lockKey(args[0])
-		if m.heldLocks[k] <= 0 {
-			panic(&goPanic{v: iface{t: types.Typ[types.String], v: str{s: "sync: unlock of unlocked mutex"}}, msg: "fatal error: sync: unlock of unlocked mutex", site: fr.stack()})
+	unlockWith := func(shared bool) intrinsicFn {
+		return func(m *Machine, fr *frame, fn *ssa.Function, args []value) value {
+			k := lockKey(args[0])
+			if m.heldLocks[k] <= 0 {
+				panic(&goPanic{v: iface{t: types.Typ[types.String], v: str{s: "sync: unlock of unlocked mutex"}}, msg: "fatal error: sync: unlock of unlocked mutex", site: fr.stack()})
+			}
+			m.heldLocks[k]--
+			if m.heldLocks[k] == 0 {
+				delete(m.heldLocks, k)
+			}
+			if m.sched != nil {
+				m.schedRelease(fr, k, shared)
+			}
+			return nil
 		}
-		m.heldLocks[k]--
-		if m.heldLocks[k] == 0 {
-			delete(m.heldLocks, k)
-		}
-		return nil
 	}
 	rlock := func(m *Machine, fr *frame, fn *ssa.Function, args []value) value {
 		k := lockKey(args[0])
 		if m.heldLocks == nil {
 			m.heldLocks = map[string]int{}
 		}
+		if m.sched != nil {
+			m.schedAcquire(fr, k, true)
+			if m.heldLocks == nil {
+				m.heldLocks = map[string]int{}
+			}
+		}
 		m.heldLocks[k]++
 		return nil
 	}
 	stubs["(*sync.Mutex).Lock"] = lock
-	stubs["(*sync.Mutex).Unlock"] = unlock
+	stubs["(*sync.Mutex).Unlock"] = unlockWith(false)
 	stubs["(*sync.RWMutex).Lock"] = lock
-	stubs["(*sync.RWMutex).Unlock"] = unlock
+	stubs["(*sync.RWMutex).Unlock"] = unlockWith(false)
 	stubs["(*sync.RWMutex).RLock"] = rlock
-	stubs["(*sync.RWMutex).RUnlock"] = unlock
+	stubs["(*sync.RWMutex).RUnlock"] = unlockWith(true)
 	harnessAPI["vUnsyncGlobals"] = func(m *Machine, fr *frame, fn *ssa.Function, args []value) value {
 		// number of repository package-level variables written on this path whose accesses do not all
 		// hold one common lock
@@ -862,6 +882,12 @@ func init() {
 				names += g + " "
 			}
 		}
+		for k, a := range m.sharedAcc {
+			if a.written && !a.locked {
+				n++
+				names += m.sharedName[k] + " "
+			}
+		}
 		if n > 0 {
 			m.notes = append(m.notes, Note{Key: "unsynchronised", V: str{s: names}})
 		}
@@ -869,6 +895,10 @@ func init() {
 	}
 	harnessAPI["vAccessLogReset"] = func(m *Machine, fr *frame, fn *ssa.Function, args []value) value {
 		m.globalAcc = map[string]*globalAccess{}
+		m.trackShared = true
+		m.sharedAcc = map[interface{}]*globalAccess{}
+		m.sharedName = map[interface{}]string{}
+		m.published = map[interface{}]bool{}
 		return nil
 	}
 	stubs["(*sync.Once).Do"] = func(m *Machine, fr *frame, fn *ssa.Function, args []value) value {
